@@ -16,7 +16,7 @@ RULE = ("signatures: every parameter list of length <= 2 (quick) / <= 3 (thoroug
         "x 8 return types (void + the 7), in thorough also every list of length 4 with one return type each, lists of length <= 1 over the 4 unsigned kinds x 12 return types, and the long-list family "
         "(n_int <= 9, n_fp <= 11, 4 <= n_int+n_fp <= 12; ints-first / floats-first / alternating; integer kinds rotated by position - one rotation "
         "chosen by VERIF_SEED in quick, all 9 in thorough - plus "
-        "uniform-kind variants for every list with a stack-passed argument); each signature x 2 call directions x 2 argument vectors "
+        "uniform-kind variants for every list with a stack-passed argument (quick: not for the alternating shape)); each signature x 2 call directions x 2 argument vectors "
         "(recognisable per position, type boundaries); one case = one executed call (or one ppci compilation that fails); "
         "distinct non-trivial = distinct (direction, return kind, returned bit pattern) observed in the driver")
 ASSUMPTIONS = [
@@ -38,7 +38,7 @@ CLAIM = {
 }
 
 M64 = (1 << 64) - 1
-BATCH = 48
+BATCH = 32
 
 # kind -> (C type, class, size, signed)
 KINDS = {
@@ -101,8 +101,9 @@ def abi_locs(params):
     return out
 
 
-def long_lists(seed):
-    """(n_int, n_fp) x interleaving x kind assignment; simplest (shortest) first."""
+def long_lists(seed, full=True):
+    """(n_int, n_fp) x interleaving x kind assignment; simplest (shortest) first.  full=False (quick tier) keeps the
+    uniform-kind variants for the ints-first and floats-first shapes only and the unsigned ones for ints-first only."""
     seen = set()
     out = []
     pairs = [(ni, nf) for ni in range(10) for nf in range(12) if 4 <= ni + nf <= 12]
@@ -123,11 +124,11 @@ def long_lists(seed):
         shapes.append(alt)
         for si, shape in enumerate(shapes):
             assigns = [("rot", None, None)]
-            if ni > 6 or nf > 8:
+            if (ni > 6 or nf > 8) and (full or si < 2):
                 for ik in (["sc", "ss", "si", "sl", "p"] if ni else [None]):
                     for fk in (["f", "d"] if nf else [None]):
                         assigns.append(("uni", ik, fk))
-                if ni > 6:
+                if ni > 6 and (full or si == 0):
                     for ik in UNSIGNED:
                         assigns.append(("uni", ik, "d" if nf else None))
             for ai, (mode, ik, fk) in enumerate(assigns):
@@ -166,7 +167,7 @@ def signatures(tier, seed):
         for r in rets + UNSIGNED:
             if ps or r in UNSIGNED:
                 uns.append((r, ps))
-    longs = long_lists(seed % len(ROT))
+    longs = long_lists(seed % len(ROT), tier != "quick")
     if tier != "quick":
         # every rotation of the integer kinds, so that each register / stack position sees each kind
         have = set(longs)
